@@ -74,6 +74,7 @@ def cases(tier, seed):
         if name in {"generic-a", "one-massless(1)", "heavy-spectator(2)"}:
             for scale, tag in ((1e-3, "x1e-3"), (1e3, "x1e3")):
                 configs.append((f"{name}{tag}", [m * scale for m in masses]))
+    out.append({"kind": "exact-boundary", "tier": tier, "seed": seed})
     for name, masses in configs:
         out.append({"kind": "events", "cfg": name, "masses": masses, "tier": tier,
                     "seed": seed})
@@ -477,7 +478,133 @@ def eval_box(case):  # noqa: C901, PLR0912, PLR0914, PLR0915
     return res
 
 
+EXACT_MASSES = [
+    (8, 1, 2, 3), (8, 3, 2, 1), (10, 2, 2, 2), (6, 1, 1, 2), (5, 0, 1, 2), (4, 0, 0, 1), (2, 0, 0, 0),
+    ("7/2", "1/2", 1, "3/4"), (9, 2, 3, 1),
+]
+
+
+def touching_points(m0, m1, m2, m3):
+    """The six points at which the Dalitz boundary touches the lines sigma_k = (m_i+m_j)^2
+    and sigma_k = (m0-m_k)^2, as exact rationals (sigma1, sigma2): physical events in which
+    two particles are at relative rest, or one particle is at rest in the parent frame."""
+    total = m0**2 + m1**2 + m2**2 + m3**2
+
+    def partner(mk, mi, mj, smin):
+        # sigma_(k j) at sigma_(i j) = smin = (mi+mj)^2 : (p_k + p_j)^2 in the (i j) rest frame
+        root = mi + mj
+        ek = (m0**2 - smin - mk**2) / (2 * root)
+        return mk**2 + mj**2 + 2 * ek * mj
+
+    def partner_max(mk, mi, mj, smax):
+        # sigma_(k j) at sigma_(i j) = smax = (m0-mk)^2 : particle k at rest with the pair
+        root = m0 - mk
+        ej = (smax - mi**2 + mj**2) / (2 * root)
+        return mk**2 + mj**2 + 2 * mk * ej
+
+    pts = []
+    # sigma1 = sigma_23 extremal; sigma2 = sigma_13
+    for s1, s2 in (((m2 + m3) ** 2, None), ((m0 - m1) ** 2, None)):
+        if s1 == (m2 + m3) ** 2 and m2 + m3 != 0:
+            pts.append(("sigma1=min", s1, partner(m1, m2, m3, s1)))
+        elif s1 == (m0 - m1) ** 2:
+            pts.append(("sigma1=max", s1, partner_max(m1, m2, m3, s1)))
+    # sigma2 = sigma_13 extremal; sigma1 = sigma_23
+    if m1 + m3 != 0:
+        s2 = (m1 + m3) ** 2
+        pts.append(("sigma2=min", partner(m2, m1, m3, s2), s2))
+    s2 = (m0 - m2) ** 2
+    pts.append(("sigma2=max", partner_max(m2, m1, m3, s2), s2))
+    # sigma3 = sigma_12 extremal: sigma1 = sigma_23 from the (1 2) frame, sigma2 from the sum
+    if m1 + m2 != 0:
+        s3 = (m1 + m2) ** 2
+        s1 = partner(m3, m1, m2, s3)
+        pts.append(("sigma3=min", s1, total - s3 - s1))
+    s3 = (m0 - m3) ** 2
+    s1 = partner_max(m3, m1, m2, s3)
+    pts.append(("sigma3=max", s1, total - s3 - s1))
+    return pts
+
+
+def eval_exact_boundary(case):
+    """Points ON the boundary are physical events (two particles at relative rest, collinear
+    massless particles): Kibble = 0 exactly and the indicator is 1.  Exact rational
+    arithmetic (no band), plus exactly representable collinear massless events in floats."""
+    import sympy as sp  # noqa: PLC0415
+    from ampform.kinematics import phasespace as ps  # noqa: PLC0415
+
+    from vp.core import HarnessError  # noqa: PLC0415
+
+    viol, nontrivial, outcomes = [], [], {}
+    n = 0
+
+    def note(key):
+        outcomes[key] = outcomes.get(key, 0) + 1
+
+    for raw in EXACT_MASSES:
+        m0, m1, m2, m3 = masses = [sp.Rational(x) for x in raw]
+        for where, s1, s2 in touching_points(*masses):
+            s3 = ps.compute_third_mandelstam(s1, s2, *masses)
+            ref_k = ps.Kibble(s1, s2, s3, *masses).doit()
+            ref_k = sp.nsimplify(ref_k) if not ref_k.is_Rational else ref_k
+            # harness self-check with an independent formula: Gram determinant form
+            x, y, z = s1, s2, m0**2 + m1**2 + m2**2 + m3**2 - s1 - s2
+            own = _kibble_ref(x, y, z, m0, m1, m2, m3)
+            if own != 0:
+                msg = f"touching point {where} of masses {raw} is not on the boundary: {own}"
+                raise HarnessError(msg)
+            n += 2
+            if ref_k != 0:
+                viol.append({"msg": f"[exact {raw}] Kibble = {ref_k} != 0 at the touching point {where}"
+                                    f" (sigma1, sigma2) = ({s1}, {s2})", "tags": ["exact-boundary", "kibble"],
+                             "detail": {"masses": list(map(str, raw))}})
+            for ov in (None, 0):
+                kw = {} if ov is None else {"outside_value": ov}
+                got = ps.is_within_phasespace(s1, s2, *masses, **kw).doit()
+                n += 1
+                nontrivial.append(["touching", list(map(str, raw)), where, str(ov)])
+                if got == 1:
+                    note("touching-point:indicator=1")
+                else:
+                    viol.append({"msg": f"[exact {raw}] is_within_phasespace = {got} (not 1) at the touching"
+                                        f" point {where} (sigma1, sigma2) = ({s1}, {s2}): a physical event with"
+                                        " two particles at relative rest", "tags": ["exact-boundary", "indicator"],
+                                 "detail": {"masses": list(map(str, raw)), "sigma1": str(s1), "sigma2": str(s2)}})
+    # collinear massless events, exactly representable: p1 = (a,0,0,-a), p2 = (b,0,0,b), p3 = (c,0,0,c)
+    s1s, s2s, *ms = [sp.Symbol(x, real=True) for x in ("sigma1", "sigma2", "m0", "m1", "m2", "m3")]
+    f_ind = sp.lambdify([s1s, s2s, *ms], ps.is_within_phasespace(s1s, s2s, *ms).doit(), "numpy")
+    for a, b, c in ((1.0, 0.5, 0.5), (2.0, 1.5, 0.5), (0.75, 0.25, 0.5), (4.0, 1.0, 3.0)):
+        if a != b + c:
+            raise HarnessError("collinear event must balance")
+        m0v = 2 * a
+        sig1 = 0.0  # (p2+p3)^2, both along +z
+        sig2 = (a + c) ** 2 - (c - a) ** 2  # (p1+p3)^2
+        got = complex(f_ind(sig1, sig2, m0v, 0.0, 0.0, 0.0))
+        n += 1
+        nontrivial.append(["collinear-massless", a, b, c])
+        if got == 1:
+            note("collinear-massless-event:indicator=1")
+        else:
+            viol.append({"msg": f"[massless collinear] is_within_phasespace = {got} (not 1) for the event"
+                                f" p1=({a},0,0,-{a}), p2=({b},0,0,{b}), p3=({c},0,0,{c}) (sigma1=0, sigma2={sig2})",
+                         "tags": ["exact-boundary", "indicator"], "detail": {"event": [a, b, c]}})
+    return {"violations": viol, "evaluations": n, "nontrivial": nontrivial, "outcomes": outcomes,
+            "sample": {"touching_points_of_(8,1,2,3)": [[w, str(a), str(b)] for w, a, b in
+                                                         touching_points(*[sp.Integer(x) for x in (8, 1, 2, 3)])]}}
+
+
+def _kibble_ref(s1, s2, s3, m0, m1, m2, m3):
+    """Kibble function from its definition lambda(lambda(s2,m2^2,m0^2), lambda(s3,m3^2,m0^2),
+    lambda(s1,m1^2,m0^2)), written out independently of the library."""
+    def lam(x, y, z):
+        return x * x + y * y + z * z - 2 * x * y - 2 * y * z - 2 * z * x
+
+    return lam(lam(s2, m2**2, m0**2), lam(s3, m3**2, m0**2), lam(s1, m1**2, m0**2))
+
+
 def eval_case(case):
+    if case["kind"] == "exact-boundary":
+        return eval_exact_boundary(case)
     if case["kind"] == "kallen":
         return eval_kallen(case)
     if case["kind"] == "events":
